@@ -22,6 +22,6 @@ def corpus():
 def main(tier, seed):
     n = {"quick": 500, "thorough": 10000}[tier]
     return storecheck.run("C02", tier, seed, PROFILE, n, corpus=corpus(),
-                          relevant=lambda o: o[0] in ("set", "get", "del", "reopen", "clock"),
+                          relevant=lambda o: o[0] in ("set", "get", "del", "reopen", "clock"), big_values={"quick": 3, "thorough": 12}[tier],
                           rule="Histories of set/delete with 0-3 close/reopen cycles each followed by a get of every key; "
-                               "timestamps also step backwards.")
+                               "timestamps also step backwards. Plus implementation-only histories with one value of 1-40 MiB (sizes around 2^24 and 2^25).")
